@@ -71,6 +71,9 @@ OPS = {
     # argument-dependent lengths: loop trip count / inserted axis length max(n, 0) for the int argument n (declared range 0..2)
     'lidxn': lambda name, argname: ev.loop_index(name, ev.Maximum(arg(argname), C(0))),
     'insertaxisn': lambda a, axis, argname: ev.insertaxis(a, _ax2(a, axis), ev.Maximum(arg(argname), C(0))),
+    # loop-dependent axis length: arange(i+1) for the loop index i (element-dependent block sizes of an assembly loop)
+    'lrange': lambda idx: ev.Range(idx + 1),
+    'inflatev': lambda a, idx, n, axis: ev._inflate(a, idx, C(n), _ax(a, axis)),
     'zeros': lambda *shape: ev.zeros(tuple(C(n) for n in shape)),
     'ones': lambda *shape: ev.ones(tuple(C(n) for n in shape)),
     # unary pointwise
@@ -444,6 +447,26 @@ VARLEN = [
     ('take', ('exp', ('cvec', 'fmat')), ('arg', 'n'), 0), ('take', ('exp', ('cvec', 'fmat')), ('arg', 'n'), 1), ('get', ('transpose', ('exp', ('cvec', 'fmat')), 'r'), 0, 1),
     ('loop_sum', ('loop_sum', ('mul', ('tofloat', ('lidxn', 'i', 'n')), ('take', ('arg', 'x'), ('lidx', 'j', 3), 0)), ('lidx', 'j', 3)), ('lidxn', 'i', 'n')),
 ]
+
+# loop bodies with one, two, three and four axes whose LENGTH depends on the loop index (element-dependent block sizes: an assembly loop over
+# elements with 1, 2 and 3 local degrees of freedom): vector, matrix, order-3 and order-4 tensor contributions scattered through a dof list
+def _varblock():
+    I = ('lidx', 'i', 3)
+    infl = lambda a: ('inflatev', ('take', a, ('lrange', I), 0), ('lrange', I), 3, 0)
+    u, v, w, t = infl(('arg', 'x')), infl(('arg', 'y')), infl(('cvec', 'fvec3')), infl(('sin', ('arg', 'x')))
+    def at(a, k, n):
+        for j in range(n):
+            if j != k: a = ('insertaxis', a, j, 3)
+        return a
+    out = [('loop_sum', u, I)]
+    for fs in ((u, v), (u, v, w), (u, w, v, t)):
+        body = at(fs[0], 0, len(fs))
+        for k, f in enumerate(fs[1:], 1): body = ('mul', body, at(f, k, len(fs)))
+        out.append(('loop_sum', body, I))
+    out.append(('loop_sum', ('mul', at(u, 0, 3), ('mul', at(v, 1, 3), at(w, 2, 3))), I))
+    out.append(('loop_sum', ('mul', at(u, 0, 2), at(('arg', 'y'), 1, 2)), I))      # one variable, one fixed axis
+    return out
+VARBLOCK = _varblock()
 
 # programs quoted in properties.jsonl and found earlier (always included)
 CORPUS = [
